@@ -327,6 +327,43 @@ class Gen:
             return self.eqguard()
         return self.cond(1, imp=False)
 
+    def tmp_branch(self, box):
+        """assignment(s) to x, then a (possibly nested) conditional whose tests read x and whose branches assign y from
+        expressions without x; used with postconditions about y only"""
+        r = self.r
+        X, Y = ["v", "x"], ["v", "y"]
+
+        def ax():
+            return ["asg", "x", r.choice([["+", X, ["n", 1]], ["-", X, ["n", 1]], ["-", ["-", X, Y], ["n", 1]], ["*", X, ["n", 2]],
+                                           ["neg", X], ["+", X, Y]])]
+
+        def gx():
+            return r.choice([["<", X, ["n", r.randint(0, 2)]], ["<", ["n", r.randint(0, 1)], X],
+                             ["==", X, ["n", r.randint(0, 2)]], ["not", ["<", X, Y]], ["and", ["<", ["n", 0], X], ["<", X, ["n", 2]]]])
+
+        def ay():
+            return r.choice([["asg", "y", ["n", r.randint(0, 2)]], ["asg", "y", ["+", Y, ["n", 1]]], ["asg", "y", ["-", Y, ["n", 1]]], ["skip"]])
+
+        def cond(d):
+            if d == 0 or r.random() < 0.5:
+                return ["if", gx(), ay(), ay()]
+            return ["if", gx(), cond(d - 1), ay() if r.random() < 0.6 else cond(d - 1)]
+        body = ["seq", ax(), cond(2)]
+        if r.random() < 0.4:
+            body = ["seq", ax(), body]
+        k = r.random()
+        if k < 0.25:
+            return ["seq", ["while", self.guard(), boxed(box, self.likely_inv()), self.com(0, box)], body]
+        if k < 0.45:
+            return ["while", self.guard(), boxed(box, self.y_assertion()), body]
+        return body
+
+    def y_assertion(self):
+        r = self.r
+        Y = ["v", "y"]
+        return r.choice([["==", Y, ["n", r.randint(0, 2)]], ["<=", Y, ["n", r.randint(0, 1)]], ["<", ["n", 0], Y],
+                         ["not", ["==", Y, ["n", 1]]], ["or", ["==", Y, ["n", 0]], ["==", Y, ["n", 1]]]])
+
     def com(self, d, box):
         r = self.r
         if d == 0 or r.random() < 0.15:
@@ -511,12 +548,18 @@ def main_com(vec_path, out_path, seed, nrandom, maxnest, twice_every, tid_base=0
                     emit(run_com(v["prog"], v["pre"], v["post"], "twice", tid, "tlc"))
         g = Gen(rnd)
         for i in range(nrandom):
-            prog = g.com(rnd.randint(1, maxnest), IBOX)
-            pre = boxed(IBOX, g.assertion())
-            post = g.assertion()
+            if i % 5 == 3:
+                # "branch on a temporary": the postcondition is silent about the variable the tests read
+                prog = g.tmp_branch(IBOX)
+                pre = boxed(IBOX, g.likely_inv()) if rnd.random() < 0.5 else IBOX
+                post = g.y_assertion()
+            else:
+                prog = g.com(rnd.randint(1, maxnest), IBOX)
+                pre = boxed(IBOX, g.assertion())
+                post = g.assertion()
             tid += 1
             emit(run_com(prog, pre, post, "twice" if i % 10 == 9 else "fresh", tid, "random"))
-            if i % 2 == 0:
+            if i % 2 == 0 or i % 5 == 3:
                 sp = self_pre(prog, post)
                 if sp is not None:
                     tid += 1
